@@ -134,30 +134,47 @@ Lemma gen_keep_sound : keep_sound gen_frob_keep.
 Proof. first [exact cmp_sqrt_gt_sound | exact cmp_sqrt_ge_sound]. Qed.
 
 (* 7. for EVERY operator, tolerance (any sign) and register size, with the REGENERATED exponent and
-      comparison: the discarded coefficients satisfy  sum |c|^2 * frob_factor^2 <= epsilon^2,
-      i.e. sum |c|^2 <= (epsilon / 2^floor(n/2))^2 for the source as it is. *)
+      comparison: the discarded coefficients satisfy  sum |c|^2 * frob_factor^2 <= epsilon^2
+      (frob_factor^2 = 2^n for the repaired source, 2^(2 floor(n/2)) for the source as it was). *)
 Theorem C14_frobenius_discard_bound :
   forall (W : Type) (e : Q) (n : nat) (l : list (term W)),
     (sum_abs2 (discarded gen_frob_x2 gen_frob_keep e n l) * pow2 (gen_frob_x2 n) <= e * e)%Q.
 Proof. exact (fun W => discard_bound W gen_frob_keep gen_keep_sound gen_frob_x2). Qed.
 Print Assumptions C14_frobenius_discard_bound.
 
-(* 8. what that gives for the eigenvalue clause: the Frobenius norm of the discarded part,
-      ||D||_F^2 = 2^n sum |c|^2, is at most epsilon^2 for EVEN n (Weyl + ||.||_op <= ||.||_F are not
-      formalised: see "outside" in the manifest). *)
-Lemma gen_x2_even : forall n, Nat.even n = true -> n <= gen_frob_x2 n.
-Proof. first [exact x2_floor_even | (intros n _; unfold gen_frob_x2, x2_true_half; lia)]. Qed.
+(* 8. the source now reads  frob_factor = 2**(n_qubits / 2)  (repaired; the regenerated exponent is the true half):
+      sqrt(coef2_sum) > epsilon / 2**(n/2)  is, exactly,  coef2_sum * 2**n > epsilon**2, which is what the
+      model evaluates over the rationals.  If the source goes back to the floor exponent this Example fails
+      and the check searches the odd-n witness of 9 on the real code. *)
+Example C14_gen_frob_is_repaired : gen_frob_x2 = x2_true_half.
+Proof. reflexivity. Qed.
 
-Theorem C14_frobenius_norm_bound_even_partial :
-  forall (W : Type) (e : Q) (n : nat) (l : list (term W)), Nat.even n = true ->
+Lemma gen_x2_all : forall n, n <= gen_frob_x2 n.
+Proof. intro n. unfold gen_frob_x2, x2_true_half. lia. Qed.
+
+(*    With that definition, for EVERY operator, tolerance and register size (odd or even): the Frobenius norm
+      of the discarded part, ||D||_F^2 = 2^n sum |c|^2, is at most epsilon^2.  (||D||_op <= ||D||_F and Weyl's
+      inequality, which turn this into the eigenvalue clause, are not formalised: "outside" in the manifest.) *)
+Theorem C14_frobenius_norm_bound :
+  forall (W : Type) (e : Q) (n : nat) (l : list (term W)),
     (sum_abs2 (discarded gen_frob_x2 gen_frob_keep e n l) * pow2 n <= e * e)%Q.
 Proof.
-  exact (fun W e n l Hn => frobenius_norm_bound W gen_frob_keep gen_keep_sound gen_frob_x2 e n l (gen_x2_even n Hn)).
+  exact (fun W e n l => frobenius_norm_bound W gen_frob_keep gen_keep_sound gen_frob_x2 e n l (gen_x2_all n)).
 Qed.
-Print Assumptions C14_frobenius_norm_bound_even_partial.
+Print Assumptions C14_frobenius_norm_bound.
 
-(* 9. for ODD n the eigenvalue clause is false with the floor exponent 2**(n//2) of the source:
-      0.6 I + 0.6 Z0, one qubit, epsilon = 1: everything is discarded, eigenvalue 6/5 -> 0. *)
+(*    The definition as it was before the repair, 2**(n_qubits // 2): the same bound only for EVEN n ... *)
+Theorem C14_frobenius_norm_bound_asis_even_partial :
+  forall (W : Type) (e : Q) (n : nat) (l : list (term W)), Nat.even n = true ->
+    (sum_abs2 (discarded x2_floor_half cmp_sqrt_gt e n l) * pow2 n <= e * e)%Q.
+Proof.
+  exact (fun W e n l Hn => frobenius_norm_bound W cmp_sqrt_gt cmp_sqrt_gt_sound x2_floor_half e n l (x2_floor_even n Hn)).
+Qed.
+Print Assumptions C14_frobenius_norm_bound_asis_even_partial.
+
+(* 9. ... and for ODD n the eigenvalue clause was false with that floor exponent (witness kept on the as-is
+      definition; the defect was repaired in /repo): 0.6 I + 0.6 Z0, one qubit, epsilon = 1: everything is
+      discarded, eigenvalue 6/5 -> 0.  The repaired definition keeps 0.6 Z0 on the same input (Example below). *)
 Theorem C14_frobenius_odd_refuted :
   exists (l : list (term word)) (e : Q) (n : nat) (lam : Q),
     Nat.odd n = true
@@ -167,6 +184,11 @@ Theorem C14_frobenius_odd_refuted :
     /\ (e < lam)%Q.
 Proof. exact frobenius_odd_refuted. Qed.
 Print Assumptions C14_frobenius_odd_refuted.
+
+(* the same witness under the repaired definition: one term survives, the shift is 3/5 <= 1 *)
+Example C14_frobenius_witness_repaired :
+  List.length (compress x2_true_half cmp_sqrt_gt 1 1 odd_witness) = 1.
+Proof. vm_compute. reflexivity. Qed.
 
 (* ================================================================== non-vacuity / witnesses *)
 (* H = X0 X1 + Z0 Z1 (binary rows (x|z)): the kernel is {X0X1, Z0Z1} and both commute with both terms *)
